@@ -21,6 +21,13 @@
 //     -> "S=<round(sum() * 2^20)> | key:<round(bin * 2^20)> ..." of the final state ("inf"/"nan" for non-finite values); qs prints sum()*4 and bin*4
 //   sv <vt1> <vt2> <w> <h> <presize> | initial vector (presize entries) | plane 1 | plane 2      std::vector<int> two-step sequence:
 //        v = initial; if vt1 != "-": fill_histogram(view1, v) ; then fill_histogram(view2, v, /*accumulate*/ true) -> "size : i:count ..."
+//   mk <vt> <sel> <bw> <w> <h> | probe keys (flattened) | planes A | planes B      the query members of the histogram class: hA = fill(A),
+//        hB = fill(B), hAB = fill(A) then fill(B, accumulate) ->
+//        "min=<min_key> max=<max_key> sorted=<sorted_keys ;-joined> near=<nearest_key(probe) ;-joined> eq=<5 bits> kp=<key_from_pixel<sel>(A(0,0))>"
+//        eq bits: hA.equals(copy of hA), hA.equals(hB), hB.equals(hA), hA.equals(hAB), hAB.equals(hA); "-" where a list is empty
+//        (min_key / max_key dereference begin(): not called on an empty histogram)
+//   kc <c0> <c1> <c2> | t0 t1 t2      histogram<unsigned char, short, int>: key_from_pixel(p), key_from_pixel<2,0,1>(p) for the rgb16s pixel
+//        p = (c0,c1,c2); key_from_tuple(t), key_from_tuple<1,2,0>(t) for the tuple<long long x3> t; five is_tuple_compatible answers
 //   st <vt> <w> <h> | plane                      gray8/gray16: vector<int>, map<int,int>, array<int,256> (g8), sparse -> four sorted lists
 #define BOOST_ENABLE_ASSERT_HANDLER
 #include <string>
@@ -190,6 +197,52 @@ template <class Img, std::size_t... A> std::string sr_axes(Op const& op, std::in
     return bins(s);
 }
 
+// query members of the histogram class
+template <class Img, std::size_t N, std::size_t... D> std::string mk_sel(Op const& op, std::index_sequence<D...>) {
+    auto const& hd = op.head; std::size_t bw = (std::size_t)hv::to_ll(hd[3]); ll w = hv::to_ll(hd[4]), h = hv::to_ll(hd[5]);
+    constexpr int NC = gil::num_channels<typename Img::view_t>::value;
+    Buf<Img> a(w, h), b(w, h); load(a.v, op.groups, 1); load(b.v, op.groups, 1 + NC);
+    typename Img::const_view_t av(a.v), bv(b.v);
+    using H = typename hist_of<N>::type;
+    H hA, hB, hAB;
+    gil::fill_histogram<D...>(av, hA, bw); gil::fill_histogram<D...>(bv, hB, bw);
+    gil::fill_histogram<D...>(av, hAB, bw); gil::fill_histogram<D...>(bv, hAB, bw, true);
+    H const& cA = hA;
+    auto ks = [](typename H::key_type const& k) { return key_str(k, std::make_index_sequence<N>{}); };
+    std::string r;
+    if (cA.empty()) r = "min=- max=- sorted=-";
+    else {
+        r = "min=" + ks(cA.min_key()) + " max=" + ks(cA.max_key()) + " sorted=";
+        auto sk = cA.sorted_keys();
+        for (size_t i = 0; i < sk.size(); ++i) r += (i ? ";" : "") + ks(sk[i]);
+    }
+    r += " near=";
+    auto const& pr = op.groups.at(0);
+    if (pr.size() < N) r += "-";
+    for (size_t i = 0; i + N <= pr.size(); i += N) {
+        std::vector<ll> one(pr.begin() + i, pr.begin() + i + N);
+        r += (i ? ";" : "") + ks(cA.nearest_key(tup<N>::make(one)));
+    }
+    H copy = hA;
+    auto bit = [](bool x) { return std::string(x ? "1" : "0"); };
+    r += " eq=" + bit(cA.equals(copy)) + bit(cA.equals(hB)) + bit(hB.equals(hA)) + bit(cA.equals(hAB)) + bit(hAB.equals(hA));
+    r += " kp=";
+    if (w * h > 0) r += ks(cA.template key_from_pixel<D...>(av(0, 0))); else r += "-";
+    return r;
+}
+static std::string kc(Op const& op) {
+    using H = gil::histogram<unsigned char, short, int>;
+    H hist; H const& ch = hist;
+    gil::rgb16s_pixel_t p((std::int16_t)hv::to_ll(op.head.at(1)), (std::int16_t)hv::to_ll(op.head.at(2)), (std::int16_t)hv::to_ll(op.head.at(3)));
+    auto t = std::make_tuple((ll)op.groups.at(0).at(0), (ll)op.groups.at(0).at(1), (ll)op.groups.at(0).at(2));
+    auto ks = [](H::key_type const& k) { return key_str(k, std::make_index_sequence<3>{}); };
+    std::string r = ks(ch.key_from_pixel(p)) + " | " + ks(ch.key_from_pixel<2, 0, 1>(p)) + " | " + ks(ch.key_from_tuple(t)) + " | " + ks(ch.key_from_tuple<1, 2, 0>(t)) + " | ";
+    auto bit = [](bool x) { return std::string(x ? "1" : "0"); };
+    r += bit(hist.is_tuple_compatible(std::make_tuple(1, 2, 3))) + bit(hist.is_tuple_compatible(std::make_tuple(1, 2)))
+       + bit(hist.is_tuple_compatible(std::make_tuple(1LL, 2.5, 'c'))) + bit(hist.is_tuple_compatible(std::make_tuple(std::string("x"), 2, 3)))
+       + bit(hist.is_tuple_compatible(std::make_tuple(1, 2, 3, 4)));
+    return r;
+}
 #define SEL(str, N, ...) if (sel == str) return F<Img, N>(op, std::index_sequence<__VA_ARGS__>{});
 template <class Img, int NC> struct dispatch;
 #define DISPATCH_BODY(FN) \
@@ -308,6 +361,20 @@ int main() {
 #endif
 #ifdef PT_E
         if (h[0] == "ns" && h.size() == 7) { VT(by_channels_ns, op) return "bad-op"; }
+#endif
+#ifdef PT_F
+        if (h[0] == "mk" && h.size() == 6) {
+            std::string sel = h[2];
+            if (vt == "g8s" && sel == "all") return mk_sel<gil::gray8s_image_t, 1>(op, std::index_sequence<>{});
+            if (vt == "g16" && sel == "all") return mk_sel<gil::gray16_image_t, 1>(op, std::index_sequence<>{});
+            if (vt == "d2_8" && sel == "all") return mk_sel<d2_8_img, 2>(op, std::index_sequence<>{});
+            if (vt == "d2_8" && sel == "10") return mk_sel<d2_8_img, 2>(op, std::index_sequence<1, 0>{});
+            if (vt == "rgb8" && sel == "all") return mk_sel<gil::rgb8_image_t, 3>(op, std::index_sequence<>{});
+            if (vt == "rgb8" && sel == "20") return mk_sel<gil::rgb8_image_t, 2>(op, std::index_sequence<2, 0>{});
+            if (vt == "rgb8" && sel == "1") return mk_sel<gil::rgb8_image_t, 1>(op, std::index_sequence<1>{});
+            return "bad-op";
+        }
+        if (h[0] == "kc" && h.size() == 4) return kc(op);
 #endif
 #ifdef PT_C
         if (h[0] == "sa" && h.size() == 6) { VTM(sa) return "bad-op"; }
